@@ -349,6 +349,22 @@ Section KeepRawLaws.
     rewrite E. unfold dec_keepraw. rewrite (Hloc c r x r' Hx). cbn [dbind]. rewrite consumed_app. reflexivity.
   Qed.
 
+  (* the owned / detached life cycle: to_owned() and clone() keep the captured bytes, so a detached
+     value still re-encodes exactly the bytes it was decoded from; mutating it afterwards drops them *)
+  Theorem keepraw_to_owned_exact bs k r :
+    consumes dec -> dec_keepraw dec bs = DOk (k, r) ->
+    enc_keepraw enc (keepraw_to_owned k) ++ r = bs /\
+    enc_keepraw enc (keepraw_clone (keepraw_to_owned k)) ++ r = bs /\
+    fst (keepraw_to_owned k) = consumed bs r.
+  Proof.
+    intros Hc H. destruct (keepraw_reencode_exact bs k r Hc H) as [H1 H2]. destruct k as [raw x].
+    unfold keepraw_to_owned, keepraw_clone. cbn [fst snd] in *. auto.
+  Qed.
+
+  Theorem keepraw_to_owned_then_mutate k x' :
+    enc_keepraw enc (keepraw_deref_mut_set (keepraw_to_owned k) x') = enc x'.
+  Proof. reflexivity. Qed.
+
   (* mutation through deref_mut: the stale raw is dropped, the new content is encoded *)
   Theorem keepraw_mutation k x' : enc_keepraw enc (keepraw_deref_mut_set k x') = enc x'.
   Proof. reflexivity. Qed.
